@@ -356,6 +356,26 @@ ENSURES = {ensures!r}
 sys.exit(rs.run({key!r}, ARGS, KIND, CLAUSE, RAISES, ENSURES, RAISED={raised!r}, CUSTOM={custom!r}))
 '''
 
+SEARCH_TEMPLATE = '''#!/venv/bin/python
+"""Replay of a failed proof obligation of a contract stated with ghost parameters: witness search.
+
+property   : {prop}
+obligation : {name}
+function   : {key}
+clause     : {clause!r}
+solver     : {solver}
+The ghost parameters are sampled (the solver's values first, when it gave any), the arguments are derived from
+the defining pre-conditions, every pre-condition is checked natively, the real function is called and the
+contract evaluated.  exit 1 = a sample violates the contract (REPRODUCED), 0 = none of the samples does.
+"""
+import os, sys
+REPO = os.environ.get("VERIF_REPO", "/repo")
+sys.path[:0] = [REPO, {contracts_dir!r}, {shims_dir!r}]
+import replay_support as rs
+
+sys.exit(rs.search({key!r}, {requires!r}, {ghost!r}, {params!r}, {raises!r}, {ensures!r}, first={first!r}))
+'''
+
 NOINPUT_TEMPLATE = '''#!/venv/bin/python
 """Refuted / no longer dischargeable proof obligation without a concrete failing input.
 
@@ -378,7 +398,8 @@ sys.exit(1)
 def write_replay(prop, key, contract: Contract, rec):
     d = OUT / "replays" / prop
     d.mkdir(parents=True, exist_ok=True)
-    fn = d / (re.sub(r"[^\w.\-\[\]#]+", "_", rec["name"]) + ".py")
+    variant = ("@" + key.split("#", 1)[1]) if "#" in key else ""
+    fn = d / (re.sub(r"[^\w.\-\[\]#@]+", "_", rec["name"] + variant) + ".py")
     def abstract(v):
         if isinstance(v, dict):
             return "__obj__" in v or "__opaque__" in v or any(abstract(x) for x in v.values())
@@ -386,6 +407,18 @@ def write_replay(prop, key, contract: Contract, rec):
             return any(abstract(x) for x in v)
         return False
 
+    simple_ghosts = contract.ghost and all(isinstance(v, str) and v in ("int", "str", "bool") for v in contract.ghost.values())
+    if simple_ghosts and not contract.replay:
+        params = {k: (v if not callable(v) else "object") for k, v in contract.params.items()}
+        txt = SEARCH_TEMPLATE.format(
+            prop=prop, name=rec["name"], key=key, clause=rec.get("clause", ""), solver=rec.get("solver"),
+            requires=list(contract.requires), ghost=dict(contract.ghost), params=params,
+            raises={k: (v if v is True else str(v)) for k, v in contract.raises.items()},
+            ensures=[list(e) for e in contract.ensures if isinstance(e[1], str)],
+            first={k: v for k, v in (rec.get("model") or {}).items() if k in contract.ghost},
+            contracts_dir=str(VERIF / "contracts"), shims_dir=str(VERIF / "shims"))
+        fn.write_text(txt)
+        return fn, True
     if "model" in rec and (contract.replay or not abstract(rec["model"])):
         txt = REPLAY_TEMPLATE.format(
             prop=prop, name=rec["name"], key=key, clause=rec.get("clause", ""), args=rec["model"], kind=rec["kind"],
